@@ -747,6 +747,29 @@ pub fn c13(rec: &mut Rec, lm: &Landmarks, rng: &mut Rng, thorough: bool) {
         k += 1;
         try_all_parsers(&mut m, s, &fmts, k * 12); // k*12: every branch of the selection above
     }
+    // (format, input) pairs that reach the error arms of Format::parse which no rendered text reaches: a word that
+    // is no month / weekday name, digits where a name or a time scale is expected, a name where digits are, an
+    // offset without minutes, with letters, with a second colon; each pair and its mutations
+    let pairs: [(&str, &str); 22] = [
+        ("%d %B %Y", "12 Foo 2020"), ("%d %b %Y", "12 Jux 2020"), ("%A %d %B %Y", "Noday 12 March 2020"), ("%a %Y-%m-%d", "Xyz 2020-03-12"),
+        ("%Y %T", "2020 123"), ("%Y-%m-%d %T", "2020-03-12 12"), ("%B %Y", "12 2020"), ("%Y-%m-%d", "2020-March-12"), ("%j %Y", "abc 2020"),
+        ("%Y-%m-%dT%H:%M:%S%z", "2020-03-12T01:02:03+01"), ("%Y-%m-%dT%H:%M:%S%z", "2020-03-12T01:02:03+ab:cd"), ("%Y-%m-%dT%H:%M:%S%z", "2020-03-12T01:02:03+01:02:03"),
+        ("%Y-%m-%dT%H:%M:%S%z", "2020-03-12T01:02:03-24:00"), ("%Y-%m-%dT%H:%M:%S%z", "2020-03-12T01:02:03+01:60"), ("%Y-%m-%dT%H:%M:%S %z %T", "2020-03-12T01:02:03 -01:30 TAI"),
+        ("%Y-%m-%dT%H:%M:%S%z", "2020-03-12T01:02:03+:"), ("%Y-%m-%dT%H:%M:%S%z", "2020-03-12T01:02:03-"), ("%z", "+01:00"), ("%z %Y", "-01:00 2020"),
+        ("%w %Y", "3 2020"), ("%y %j", "20 072"), ("%Y %J", "2020 72.5"),
+    ];
+    for (f, inp) in pairs {
+        for rep in 0..(if thorough { 40 } else { 4 }) {
+            let mut t = inp.to_string();
+            for _ in 0..(rep % 3) {
+                t = mutate(rng, &t);
+            }
+            let o = t.clone();
+            let ff = f.to_string();
+            let r = with_deadline(DEADLINE_S, move || Epoch::from_format_str(&o, &ff).is_ok());
+            total_ev(m.rec, "format_str", &t, Some(f), r);
+        }
+    }
     // single and double mutations of every skeleton
     let rounds = if thorough { 400 } else { 22 };
     for _ in 0..rounds {
